@@ -7,6 +7,9 @@ try:
 except ImportError:
     pass
 
+from obl.c02_build import build_table_obls
+OBLIGATIONS += build_table_obls("c")
+
 META = {
     "level": "model_checking",
     "level_text": "Bounded model checking (CBMC) of the real db_impl.c write, flush and garbage-collection paths with every env/log call below them returning a symbolic error: a failed log append or sync is returned to the writer, inserts nothing and latches the background error so that every later write is refused (the defect F1 was found and repaired here); a failed table build / MANIFEST apply latches the error and leaves the immutable memtable and its log in place; nothing is deleted after a latched error.",
